@@ -12,7 +12,7 @@ A system is JSON-able:
        | ["field", f] | ["raise", k]
   ptrans = "same" | "this_year" | ... | ["offset", n] | ["fixed", period] | "bad"
   period = [unit, [y,m,d], size]
-  pop  = {"count": g, "ids": [...], "roles": [...]}        (roles: 0 parent, 1 child)
+  pop  = {"count": g, "ids": [...], "roles": [...]}        (roles: 0 parent, 1 child, 2 head (unique, max 1))
   cfg  = {"trace": bool, "disk": bool, "priority": [v...], "drop": [v...], "blacklist": [v...], "opt_out": bool}
   request = ["calc", v, period] | ["add", v, period] | ["div", v, period] | ["set", v, period, [z...]]
           | ["delete", v, period|None] | ["get", v, period] | ["switch", k, on]
@@ -44,7 +44,7 @@ UNIT_OBJ = {"weekday": DateUnit.WEEKDAY, "week": DateUnit.WEEK, "day": DateUnit.
             "month": DateUnit.MONTH, "year": DateUnit.YEAR, "eternity": DateUnit.ETERNITY}
 TYPES = {"int": int, "float": float, "bool": bool}
 ENT_KEY = {"person": "person", "group": "household"}
-ROLE_KEYS = ["parent", "child"]
+ROLE_KEYS = ["parent", "child", "head"]
 EXACT_LIMIT = 2 ** 22          # |values| below this are exact in int32 and float32
 
 
@@ -176,6 +176,8 @@ def ev(sys, switches, e, ent, sim, period, parameters):
             return hh.any(a, role=role) + 0
         if e[1] == "all":
             return hh.all(a, role=role) + 0
+        if e[1] == "from_person":
+            return hh.value_from_person(a, role) + 0
         raise AssertionError(e[1])
     if tag == "nb":
         role = None if e[1] is None else role_obj(sim, e[1])
@@ -220,6 +222,7 @@ def build_system(sys, switches):
     household = build_entity(key="household", plural="households", label="", roles=[
         {"key": "parent", "plural": "parents", "max": 2},
         {"key": "child", "plural": "children"},
+        {"key": "head", "plural": "heads", "max": 1},
     ])
     tbs = TaxBenefitSystem([person, household])
     for i, v in enumerate(sys["vars"]):
@@ -461,7 +464,7 @@ def cptrans(pt):
 COPT = {"plain": "OPlain", "add": "OAdd", "divide": "ODivide", "both": "OBoth", "unknown": "OUnknown"}
 CBIN = {"add": "BAdd", "sub": "BSub", "mul": "BMul", "min": "BMin", "max": "BMax", "lt": "BLt",
         "le": "BLe", "eq": "BEq", "and": "BAnd", "or": "BOr"}
-CAGG = {"sum": "GSum", "any": "GAny", "all": "GAll"}
+CAGG = {"sum": "GSum", "any": "GAny", "all": "GAll", "from_person": "GFromPerson"}
 CFIELD = {"year": "FYear", "month": "FMonth", "day": "FDay", "size": "FSize"}
 
 
@@ -568,6 +571,11 @@ def gen_pop(rng, max_persons=5):
             parents[g] = parents.get(g, 0) + 1
         else:
             roles.append(1)
+    # the unique role: at most one head per group, sometimes none, wherever the person is stored
+    for g in range(count):
+        members = [i for i in range(n) if ids[i] == g]
+        if members and rng.random() < 0.7:
+            roles[rng.choice(members)] = 2
     return {"count": count, "ids": ids, "roles": roles}
 
 
@@ -661,11 +669,13 @@ def gen_expr(rng, sys_vars, i, ent, unit, depth, profile, allowed):
     if r < 0.70:
         return ["where", sub(), sub(), sub()]
     if r < 0.88:
-        role = rng.choice([None, None, 0, 1])
+        role = rng.choice([None, None, 0, 1, 2])
         if ent == "group":
             if rng.random() < 0.25:
                 return ["nb", role]
             g = rng.choice(["sum", "sum", "any", "all"])
+            if rng.random() < 0.2:
+                g, role = "from_person", 2      # only with the unique role
             return ["agg", g, role, sub("person")]
         return ["project", role, sub("group")]
     return leaf()
